@@ -110,6 +110,15 @@ PROPS = {
                    "Oracle: sequential fold / std:: containers / serial union-find.",
         level_note="Sampling over seeds; the value-only parts (identities, masks) ride along on the simulated concurrent runs, the schedule-dependent parts (CAS loops under spurious weak-CAS failure, concurrent merges) are what the simulator adds.",
         **tiers(8000, 120, 200000, 1500)),
+    "C16": dict(
+        jobs=[dict(harness="c16_pstl", variant="a", weight=2), dict(harness="c16_pstl", variant="n", weight=1)],
+        components=comp(), expected_probes=[],
+        design_ref="3.16",
+        level_text="Seeded exploration of ParallelSTL sort, partition, count_if, find_if, accumulate, map_reduce, partial_sum, destroy on generated sequences (empty, around the 1024 cut-off, "
+                   "non-multiples of the block size, all-equal/sorted/reversed/few-keys, all-true/all-false predicates) on 1-16 threads; oracle: the std:: counterpart, partition-point validity, permutation checks. "
+                   "The simulator explores which thread exhausts which side first in partition's block claiming and everything for_each/do_all do underneath.",
+        level_note="Sampling over seeds; element accesses are plain (no decision points), so > 1024 elements stay cheap.",
+        **tiers(6000, 120, 150000, 1500)),
 }
 
 ALL_IDS = ["C%02d" % i for i in range(1, 21)]
